@@ -84,24 +84,22 @@ WellFormed_rooms(p, st) ==
 RoomGridWalls(h, w, ys, xs) ==
   [i \in 1..h |-> [j \in 1..w |->
      IF (\E a \in DOMAIN ys : ys[a] = i - 1) \/ (\E b \in DOMAIN xs : xs[b] = j - 1) THEN Wall ELSE Floor]]
-\* all ways to open one passage in every interior wall segment
-HorizontalSegments(ys, xs) == {<<ys[a], b>> : a \in 2..(Len(ys) - 1), b \in 1..(Len(xs) - 1)}
-VerticalSegments(ys, xs) == {<<a, xs[b]>> : a \in 1..(Len(ys) - 1), b \in 2..(Len(xs) - 1)}
-PassageChoices(ys, xs) ==
-  \* a function from segments to the opened cell
-  LET hs == HorizontalSegments(ys, xs)
-      vs == VerticalSegments(ys, xs)
-  IN {[hf |-> fh, vf |-> fv] :
-        fh \in {f \in [hs -> GPositions(RoomGridWalls(ys[Len(ys)] + 1, xs[Len(xs)] + 1, ys, xs))] :
-                  \A s \in hs : f[s][1] = s[1] /\ f[s][2] > xs[s[2]] /\ f[s][2] < xs[s[2] + 1]},
-        fv \in {f \in [vs -> GPositions(RoomGridWalls(ys[Len(ys)] + 1, xs[Len(xs)] + 1, ys, xs))] :
-                  \A s \in vs : f[s][2] = s[2] /\ f[s][1] > ys[s[1]] /\ f[s][1] < ys[s[1] + 1]}}
+\* all ways to open one passage in every interior wall segment: a segment is given by its set of candidate
+\* cells; the grids are built segment by segment (the number of grids is the product of the segment widths)
+HorizontalSegments(ys, xs) ==
+  {{<<ys[a], x>> : x \in (xs[b] + 1)..(xs[b + 1] - 1)} : a \in 2..(Len(ys) - 1), b \in 1..(Len(xs) - 1)}
+VerticalSegments(ys, xs) ==
+  {{<<y, xs[b]>> : y \in (ys[a] + 1)..(ys[a + 1] - 1)} : a \in 1..(Len(ys) - 1), b \in 2..(Len(xs) - 1)}
+RECURSIVE OpenSegments(_, _)
+OpenSegments(grids, segs) ==
+  IF segs = {} THEN grids
+  ELSE LET sg == CHOOSE x \in segs : TRUE
+       IN OpenSegments(UNION {{SetCell(g, c, Floor) : c \in sg} : g \in grids}, segs \ {sg})
 RoomGrids(h, w, ly, lx) ==
   LET ys == Splits(h, ly)
       xs == Splits(w, lx)
       base == RoomGridWalls(h, w, ys, xs)
-  IN {SetCells(SetCells(base, {c.hf[s] : s \in DOMAIN c.hf}, Floor), {c.vf[s] : s \in DOMAIN c.vf}, Floor)
-        : c \in PassageChoices(ys, xs)}
+  IN OpenSegments({base}, HorizontalSegments(ys, xs) \cup VerticalSegments(ys, xs))
 FloorCells(g) == {q \in GPositions(g) : IsFloor(Cell(g, q))}
 Init_rooms(p) ==
   UNION {{St(SetCell(g, ae[2], Exit("NONE")), ae[1], o, NoneObj) :
